@@ -21,224 +21,7 @@ use vmodel::ops::Weights;
 use vmodel::session::Session;
 use vmodel::setup::{self, Config};
 
-#[derive(Debug, Clone, PartialEq, Default)]
-pub struct DocDigest {
-    pub key_label: String,
-    pub label: String,
-    pub tags: Vec<String>,
-    pub kind: u8,
-    pub favorite: bool,
-}
-
-#[derive(Debug, Clone, PartialEq, Default)]
-pub struct IndexDigest {
-    pub docs: BTreeMap<(VaultId, SecretId), DocDigest>,
-    pub entries: usize,
-    pub vaults: BTreeMap<VaultId, usize>,
-    pub kinds: BTreeMap<u8, usize>,
-    pub tags: BTreeMap<String, usize>,
-    pub favorites: usize,
-}
-
-pub fn digest_of_index(index: &SearchIndex) -> IndexDigest {
-    let mut d = IndexDigest::default();
-    for (key, doc) in index.documents() {
-        d.entries += 1;
-        let key_label = serde_json::to_value(key).ok().and_then(|v| v.get(0).and_then(|l| l.as_str().map(|s| s.to_string()))).unwrap_or_default();
-        let mut tags: Vec<String> = doc.meta().tags().iter().cloned().collect();
-        tags.sort();
-        d.docs.insert(
-            (*doc.folder_id(), *doc.id()),
-            DocDigest { key_label, label: doc.meta().label().to_string(), tags, kind: doc.meta().kind().into(), favorite: doc.meta().favorite() },
-        );
-    }
-    let c = index.statistics().count();
-    d.vaults = c.vaults().iter().filter(|(_, n)| **n > 0).map(|(k, n)| (*k, *n)).collect();
-    d.kinds = c.kinds().iter().filter(|(_, n)| **n > 0).map(|(k, n)| (*k, *n)).collect();
-    d.tags = c.tags().iter().filter(|(_, n)| **n > 0).map(|(k, n)| (k.clone(), *n)).collect();
-    d.favorites = c.favorites();
-    d
-}
-
-fn kind_code(name: &str) -> u8 {
-    // same table as sos_vault::secret::kind
-    use sos_vault::secret::SecretType;
-    let t: SecretType = serde_json::from_value(Value::String(name.to_string())).unwrap_or(SecretType::Note);
-    (&t).into()
-}
-
-pub fn digest_of_model(model: &AccountModel) -> IndexDigest {
-    let mut d = IndexDigest::default();
-    let archive = model.view.folders.iter().find(|(_, f)| f.flags & VaultFlags::ARCHIVE.bits() != 0).map(|(id, _)| *id);
-    for (fid, f) in &model.view.folders {
-        for (sid, (meta, _)) in &f.secrets {
-            let label = meta.get("label").and_then(|l| l.as_str()).unwrap_or("").to_string();
-            let mut tags: Vec<String> = meta.get("tags").and_then(|t| t.as_array()).map(|a| a.iter().filter_map(|x| x.as_str().map(|s| s.to_string())).collect()).unwrap_or_default();
-            tags.sort();
-            let kind = kind_code(meta.get("kind").and_then(|k| k.as_str()).unwrap_or("note"));
-            let favorite = meta.get("favorite").and_then(|b| b.as_bool()).unwrap_or(false);
-            d.entries += 1;
-            *d.vaults.entry(*fid).or_insert(0) += 1;
-            if Some(*fid) != archive {
-                *d.kinds.entry(kind).or_insert(0) += 1;
-            }
-            for t in &tags {
-                *d.tags.entry(t.clone()).or_insert(0) += 1;
-            }
-            if favorite {
-                d.favorites += 1;
-            }
-            d.docs.insert((*fid, *sid), DocDigest { key_label: label.to_lowercase(), label, tags, kind, favorite });
-        }
-    }
-    d
-}
-
-/// Differences `expect` vs `got` as (class, detail).
-pub fn diff_digest(expect: &IndexDigest, got: &IndexDigest) -> Vec<(&'static str, String)> {
-    let mut out = vec![];
-    if got.entries != got.docs.len() {
-        out.push(("duplicate_documents", format!("{} index entries for {} distinct (folder, secret) pairs", got.entries, got.docs.len())));
-    }
-    for (k, e) in &expect.docs {
-        match got.docs.get(k) {
-            None => out.push(("document_missing", format!("no document for live secret {} in folder {}", k.1, k.0))),
-            Some(g) => {
-                if g.label != e.label {
-                    out.push(("document_stale_label", format!("secret {}: label {:?} expected {:?}", k.1, trunc(&g.label), trunc(&e.label))));
-                }
-                if g.key_label != e.key_label {
-                    out.push(("document_stale_key", format!("secret {}: listing key label {:?} expected {:?}", k.1, trunc(&g.key_label), trunc(&e.key_label))));
-                }
-                if g.tags != e.tags {
-                    out.push(("document_stale_tags", format!("secret {}: tags {:?} expected {:?}", k.1, g.tags, e.tags)));
-                }
-                if g.kind != e.kind {
-                    out.push(("document_wrong_kind", format!("secret {}: kind {} expected {}", k.1, g.kind, e.kind)));
-                }
-                if g.favorite != e.favorite {
-                    out.push(("document_stale_favorite", format!("secret {}: favourite {} expected {}", k.1, g.favorite, e.favorite)));
-                }
-            }
-        }
-    }
-    for k in got.docs.keys() {
-        if !expect.docs.contains_key(k) {
-            out.push(("document_unexpected", format!("document for secret {} in folder {} which is not live", k.1, k.0)));
-        }
-    }
-    if got.vaults != expect.vaults {
-        out.push(("counter_folders", format!("per-folder counters {:?} expected {:?}", got.vaults, expect.vaults)));
-    }
-    if got.kinds != expect.kinds {
-        out.push(("counter_kinds", format!("per-kind counters {:?} expected {:?}", got.kinds, expect.kinds)));
-    }
-    if got.tags != expect.tags {
-        let a: BTreeSet<_> = got.tags.iter().collect();
-        let b: BTreeSet<_> = expect.tags.iter().collect();
-        out.push(("counter_tags", format!("tag counters differ: only in index {:?}; only in recount {:?}", a.difference(&b).take(4).collect::<Vec<_>>(), b.difference(&a).take(4).collect::<Vec<_>>())));
-    }
-    if got.favorites != expect.favorites {
-        out.push(("counter_favorites", format!("favourites counter {} expected {}", got.favorites, expect.favorites)));
-    }
-    out
-}
-
-fn trunc(s: &str) -> String {
-    s.chars().take(60).collect()
-}
-
-fn marker_in(s: &str) -> Option<String> {
-    let i = s.find("MK")?;
-    let t: String = s[i..].chars().take(24).collect();
-    if t.len() == 24 && t.chars().all(|c| c.is_ascii_alphanumeric()) {
-        Some(t)
-    } else {
-        None
-    }
-}
-
-/// Build an index from scratch over the account's unlocked folders.
-pub async fn rebuild(account: &sos_account::LocalAccount, folders: &[VaultId], archive: Option<VaultId>) -> Result<SearchIndex, String> {
-    let mut idx = SearchIndex::new();
-    idx.set_archive_id(archive);
-    for f in folders {
-        let folder = account.folder(f).await.map_err(|e| format!("{e}"))?;
-        let ap = folder.access_point();
-        let ap = ap.lock().await;
-        idx.add_folder(&ap).await.map_err(|e| format!("add_folder {f}: {e}"))?;
-    }
-    Ok(idx)
-}
-
-pub async fn check_index(
-    rep: &mut Reporter,
-    account: &sos_account::LocalAccount,
-    model: &AccountModel,
-    stale_tokens: &[String],
-    backend: &str,
-    opkind: &str,
-    ctx: &Value,
-) {
-    let expect = digest_of_model(model);
-    let index = match account.search_index().await {
-        Ok(i) => i,
-        Err(e) => {
-            rep.violation(&format!("C20:{backend}:no_index:after_{opkind}"), &format!("search_index() failed: {e}"), json!({"ctx": ctx}));
-            return;
-        }
-    };
-    let folders: Vec<VaultId> = model.view.folders.keys().copied().collect();
-    let archive = model.view.folders.iter().find(|(_, f)| f.flags & VaultFlags::ARCHIVE.bits() != 0).map(|(id, _)| *id);
-    let live = {
-        let r = index.read().await;
-        let d = digest_of_index(&r);
-        // queries
-        let mut asked = 0;
-        for ((fid, sid), doc) in expect.docs.iter().take(6) {
-            if let Some(tok) = marker_in(&doc.label) {
-                let q = tok.to_lowercase();
-                let hits = r.query_map(&q, |_| true);
-                asked += 1;
-                let as_word = doc.label.split(' ').any(|w| w.to_lowercase().starts_with(&q));
-                if as_word && !hits.iter().any(|h| h.id() == sid && h.folder_id() == fid) {
-                    rep.violation(&format!("C20:{backend}:query_misses_live:after_{opkind}"), &format!("query for the label token of live secret {sid} does not return it"), json!({"ctx": ctx, "token": tok}));
-                }
-                for h in hits {
-                    let hay = format!("{} {} {}", h.meta().label(), h.meta().tags().iter().cloned().collect::<Vec<_>>().join(" "), h.extra().comment().unwrap_or("")).to_lowercase();
-                    let web = h.extra().websites().unwrap_or_default().join(" ").to_lowercase();
-                    if !hay.contains(&q) && !web.contains(&q) {
-                        rep.violation(&format!("C20:{backend}:query_returns_unrelated:after_{opkind}"), &format!("query for {tok} returned secret {} whose indexed fields do not contain it", h.id()), json!({"ctx": ctx, "token": tok}));
-                    }
-                }
-            }
-        }
-        for tok in stale_tokens.iter().rev().take(6) {
-            let q = tok.to_lowercase();
-            let hits = r.query_map(&q, |_| true);
-            asked += 1;
-            if let Some(h) = hits.first() {
-                rep.violation(&format!("C20:{backend}:query_returns_stale:after_{opkind}"), &format!("query for the label token of a deleted / relabelled secret returns secret {} (label {:?})", h.id(), trunc(h.meta().label())), json!({"ctx": ctx, "token": tok}));
-            }
-        }
-        rep.count("queries", asked);
-        d
-    };
-    rep.count("index_vs_model", 1);
-    for (class, detail) in diff_digest(&expect, &live) {
-        rep.violation(&format!("C20:{backend}:index_vs_folders:{class}:after_{opkind}"), &format!("[live index vs folder contents] {detail}"), json!({"ctx": ctx, "difference": detail}));
-    }
-    match rebuild(account, &folders, archive).await {
-        Ok(fresh) => {
-            rep.count("index_vs_rebuild", 1);
-            let fd = digest_of_index(&fresh);
-            for (class, detail) in diff_digest(&fd, &live) {
-                rep.violation(&format!("C20:{backend}:index_vs_rebuild:{class}:after_{opkind}"), &format!("[live index vs rebuilt index] {detail}"), json!({"ctx": ctx, "difference": detail}));
-            }
-        }
-        Err(e) => rep.violation(&format!("C20:{backend}:rebuild_failed:after_{opkind}"), &format!("cannot rebuild an index: {e}"), json!({"ctx": ctx})),
-    }
-}
+pub use vmodel::index::*;
 
 /// Label tokens that belonged to secrets but are in no live label now.
 pub fn stale_label_tokens(all_label_tokens: &BTreeSet<String>, model: &AccountModel) -> Vec<String> {
